@@ -200,6 +200,8 @@ class ModelReplayer:
                     sl[a[0]].refresh()
                 elif name == "copy":
                     sl[a[1]] = sl[a[0]].copy()
+                elif name == "new":
+                    sl[a[0]] = type(sl[a[0]])(self.lit(a[1]))
                 elif name == "addcons":
                     obj = sl[a[0]]
                     x, v = self.codec.py(a[1]), a[2]
